@@ -67,8 +67,8 @@ var urlFrags = []string{
 }
 
 // urlPrefixes / urlTailFrags: well-formed beginnings and the fragments that matter at the end of a URL.
-var urlPrefixes = []string{"http://e.x/", "http://e.x", "/p", "mailto:a@e.x", "//e.x/p", "http:/", "http:", "https:e.x"}
-var urlTailFrags = []string{"?", "#", "/", ".", ":", "@", "a", "=", "&amp;", "%", "%3a", "%0a", "%20", " ", "\u00a0", "\u2003", "\t", "\n", "\\", "é", "[", "]", "&#0;", "\x7f", "+", "%2F", "%2f", "<"}
+var urlPrefixes = []string{"http://e.x/", "http://e.x", "/p", "mailto:a@e.x", "//e.x/p", "http:/", "http:", "https:e.x", "ftp://e.x/", "tel:1"}
+var urlTailFrags = []string{"?", "#", "/", ".", ":", "@", "a", "=", "&amp;", "%", "%3a", "%0a", "%20", " ", "\u00a0", "\u2003", "\t", "\n", "\\", "é", "[", "]", "&#0;", "\x7f", "+", "%2F", "%2f", "<", "%26"}
 
 // dataURIFrags: the data: URI fragment alphabet (C03, C14).
 var dataURIFrags = []string{"data:", "DATA:", "image/png", "image/svg+xml", "image/gif", "text/html", ";base64,", ";base64", ",", "iVBORw0KGgo=", "AAAA", "AA", " ", "\n", "\r", "\t", "#", "?", "x", "<script>", ";charset=utf-8", "%20", "&#10;", "="}
